@@ -443,6 +443,8 @@ def discharge(prog, iv, site):
         arg_t = strip(R.operand(t["args"][1]))
         gen = t["callee"].get("args", [])
         arr_len = _array_len(f, t["args"][0], gen)
+        if arr_len is None:
+            arr_len = _static_len(R.operand(t["args"][0]), 0, f)       # a piece of a fixed-size array: buf[8..][..4]
         if arg_t[0] == "agg" and arg_t[1][0] == "adt" and arg_t[1][2] in ("Range", "RangeTo", "RangeFrom", "RangeFull", "RangeInclusive", "RangeToInclusive"):
             name = arg_t[1][2]
             if name == "RangeFull":
